@@ -315,8 +315,14 @@ fn self_exe() -> std::path::PathBuf {
     std::env::current_exe().expect("current_exe")
 }
 
-fn scratch_dir() -> String {
+pub fn scratch_dir() -> String {
+    // children (workers, isolated executions) share the directory of the supervising process, which removes it
+    if let Ok(d) = std::env::var("DESKSET_SCRATCH") {
+        let _ = std::fs::create_dir_all(&d);
+        return d;
+    }
     let d = format!("{}/target/deskset-tmp/{}", root(), std::process::id());
+    std::env::set_var("DESKSET_SCRATCH", &d);
     let _ = std::fs::create_dir_all(&d);
     d
 }
@@ -324,7 +330,7 @@ fn scratch_dir() -> String {
 /// Run one envelope in a child process; classify panics, aborts, allocation run-aways and hangs.
 pub fn exec_isolated<S: Scenario>(env: &Envelope<S::Case>, timeout: Duration) -> IsoResult {
     let dir = scratch_dir();
-    let pfile = format!("{dir}/iso-{:?}.progress", std::thread::current().id());
+    let pfile = format!("{dir}/iso-{}-{:?}.progress", std::process::id(), std::thread::current().id());
     let mut child = Command::new(self_exe())
         .args(["exec", S::ID, &pfile])
         .stdin(Stdio::piped())
